@@ -22,3 +22,5 @@ func LastNow() time.Time { return clockLast }
 func Sleep(d time.Duration) {}
 
 func HashBitVectors() {}
+
+func Fix(x uint64, k uint64) { Assume(x == k) }
